@@ -15,9 +15,10 @@ LEVEL = 'exploration'
 SHARDS = {'quick': 4, 'thorough': 16}
 TIMEOUT = {'quick': 300, 'thorough': 3000}
 N_HIST = {'quick': 1500, 'thorough': 120000}
+N_BIG = {'quick': 12, 'thorough': 600}          # scale regime: 500-1200 operations in one world, up to 300 agents
 RULE = ('cases: seeded histories of 40 ops (add / move / move_to / remove / move of an absent agent) for 1-5 agents in SpaceWorld, '
         'DiscreteWorld, LineWorld, GridWorld with deliberately unequal extents from {0} u {1..9} (continuous also 1.0, 2.5, 7.125), '
-        'wrap on/off; arguments in range, on the boundary (0, inclusive edge) and far out of range (up to 10^9 x extent, both signs, '
+        'wrap on/off; arguments in range, on the boundary (0, inclusive edge) and far out of range (up to 10^9 x extent - in grid worlds also 10^17, 2^60+1, 10^30 x extent: Python ints are exact -, both signs, '
         'multi-lap wraps, mixed clamp directions); exact class (dyadic) 75%, wild floats 25% in continuous worlds. Oracle per '
         'positive-extent axis: wrap -> (old+d) mod extent, else clamp(old+d, 0, extent[-1 for grids]); accepted placement/move_to '
         'lands where requested; rejected ones change nothing; other agents never move; removal drops the position. Non-trivial: '
@@ -26,7 +27,7 @@ RULE = ('cases: seeded histories of 40 ops (add / move / move_to / remove / move
 ASSUMPTIONS = ['only axes of positive extent are claimed (zero-extent axes are read back but not judged)',
                'extents are 0 or >= 1', 'float landing is exact on multiples of 1/8 below 2^40; elsewhere within 4*(ulp(|old|+|delta|)+ulp(extent)): float % rounds once more when it folds a negative remainder']
 FLOORS = {'quick': {'moves_wrap': 4000, 'moves_clamp': 4000, 'multi_lap_wraps': 800, 'saturated_low': 500, 'saturated_high': 500,
-                    'move_to_accepted': 2000, 'move_to_rejected': 2000, 'boundary_landings': 1500, 'removals': 1000, 'deprecated_alias_calls': 300, 'wild_ops': 500,
+                    'move_to_accepted': 2000, 'move_to_rejected': 2000, 'boundary_landings': 1500, 'removals': 1000, 'deprecated_alias_calls': 300, 'big_histories': 6, 'big_history_ops': 3000, 'wild_ops': 500,
                     'exact_ops': 8500, 'contract:SpaceWorld.containment': 30000, 'world_space': 200, 'world_discrete': 200, 'world_line': 80, 'world_grid': 80,
                     'reach:Environments.SpaceWorld.move': 8000, 'reach:Environments.SpaceWorld.move_to': 4000},
           'thorough': {'moves_wrap': 300000, 'moves_clamp': 300000, 'move_to_rejected': 150000}}
@@ -103,7 +104,7 @@ def case_history(ctx, case):
                 return rng.choice([rng.uniform(-3, 3), -1e-17, 1e-17, 5e-324, -5e-324, rng.uniform(-1e-3, 1e-3)])
             return rng.randint(-24, 24) / 8
         if style == 'far':
-            m = rng.choice([2, 3, 10, 1000, 10 ** 6, 10 ** 9])
+            m = rng.choice([2, 3, 10, 1000, 10 ** 6, 10 ** 9] + ([10 ** 17, 2 ** 60 + 1, 10 ** 30] if grid else []))   # ints are exact at any size
             s = rng.choice([-1, 1])
             if grid:
                 return s * (int(e) * m + rng.randint(0, int(e)))
@@ -265,8 +266,75 @@ def case_history(ctx, case):
                     'trace': trace[:8]})
 
 
+
+def case_big(ctx, case):
+    """Scale regime: one world, 300-700 placements and removals (many more removals than small histories ever see), moves interleaved;
+    every 10 operations the positions of ALL agents are compared with the reference."""
+    rng = ctx.rng('big', case['i'])
+    core, envs = fixtures()
+    P = envs.PositionComponent
+    model = core.Model()
+    kind, env, ext, wrap = make_world(core, envs, rng, model)
+    grid = kind != 'space'
+    off = 1 if grid else 0
+    pos_axes = [k for k in range(3) if ext[k] and ext[k] > 0]
+    agents = [core.Agent(f'g{j}', model) for j in range(rng.choice([40, 120, 300]))]
+    ref = {}
+
+    def rnd(k):
+        if not (ext[k] and ext[k] > 0):
+            return 0
+        hi = ext[k] - off
+        return rng.randint(0, int(hi)) if grid else rng.randint(0, int(hi * 8)) / 8
+
+    def verify(what):
+        ctx.ev()
+        for a in agents:
+            exp = ref.get(a.id)
+            got = a.components[P].xyz() if P in a.components else None
+            if (exp is None) != (got is None):
+                raise CaseViolation(f'{what}: agent {a.id} resident={exp is not None} but position present={got is not None}', world=(kind, ext, wrap))
+            if exp is not None and any(Fraction(got[k]) != exp[k] for k in pos_axes):
+                raise CaseViolation(f'{what}: agent {a.id} is at {got}, expected {[float(e) if e is not None else None for e in exp]}',
+                                    world=(kind, ext, wrap))
+
+    ops = rng.choice([500, 800, 1200])
+    for step in range(ops):
+        a = rng.choice(agents)
+        x = rng.random()
+        if a.id not in ref:
+            pos = [rnd(k) for k in range(3)]
+            env.add_agent(a, *pos)
+            ref[a.id] = [Fraction(pos[k]) if k in pos_axes else None for k in range(3)]
+        elif x < 0.55:
+            env.remove_agent(a.id)
+            del ref[a.id]
+            ctx.count('removals')
+        elif x < 0.8:
+            d = [rng.randint(-3, 3) if grid else rng.randint(-24, 24) / 8 for _ in range(3)]
+            old = a.components[P].xyz()
+            env.move(a, *d)
+            for k in pos_axes:
+                sm = Fraction(old[k]) + Fraction(d[k])
+                ref[a.id][k] = sm % Fraction(ext[k]) if wrap else min(max(sm, 0), Fraction(ext[k] - off))
+            ctx.count('moves_wrap' if wrap else 'moves_clamp')
+        else:
+            pos = [rnd(k) for k in range(3)]
+            env.move_to(a, *pos)
+            ref[a.id] = [Fraction(pos[k]) if k in pos_axes else None for k in range(3)]
+            ctx.count('move_to_accepted')
+        if step % 10 == 0:
+            verify(f'big history, operation {step}')
+    verify('end of big history')
+    ctx.count('big_histories')
+    ctx.count('big_history_ops', ops)
+    ctx.distinct(('big', kind, tuple(ext), wrap, case['i']))
+    if case['i'] < 1:
+        ctx.sample({'kind': 'big history', 'world': kind, 'extents': ext, 'wrap': wrap, 'agents': len(agents), 'operations': ops})
+
+
 def run_case(ctx, case):
-    case_history(ctx, case)
+    (case_big if case.get('kind') == 'big' else case_history)(ctx, case)
 
 
 def run(ctx):
@@ -274,6 +342,9 @@ def run(ctx):
     for i in range(N_HIST[ctx.tier]):
         if ctx.mine(i) and not ctx.full():
             ctx.run_case({'kind': 'hist', 'i': i}, run_case)
+    for i in range(N_BIG[ctx.tier]):
+        if ctx.mine(i) and not ctx.full():
+            ctx.run_case({'kind': 'big', 'i': i}, run_case)
     for k, v in contracts.EVALS.items():
         ctx.count('contract:' + k, v)
 
